@@ -36,7 +36,8 @@ def parseEvents (arr : Array Json) : Except String (List EventH) := do
     | "complete" =>
       let t ← getNat e "t"
       let k ← getNat e "k"
-      out := out ++ [.complete t k (futValue t k)]
+      let bad := match getOpt e "bad" with | some d => d.getBool?.toOption.getD false | none => false
+      out := out ++ [.complete t k (if bad then -(futValue t k) else futValue t k)]
     | s => throw s!"unknown event {s}"
   return out
 
@@ -59,14 +60,18 @@ def jObs (o : ObsH) : Json := Json.mkObj [
   ("spawns", Json.arr (o.spawns.map fun (t, p, r) => Json.arr #[toJson t, toJson p, toJson r]).toArray)]
 
 /-- labels of the model branches a ready-queue step takes (for the coverage table) -/
-def stepLabels (c : Cfg) (h : Hook) (rf : Nat → Nat) (s : St) : List String :=
+def stepLabels (c : Cfg) (e : Env) (rf : Nat → Nat) (s : St) : List String :=
+  let h := e.hook
   match s.ready with
   | [] => []
   | (t, w) :: _ =>
     match s.tasks t with
     | none => ["step:no-task"]
     | some x =>
-      let s' := stepReadyH c h rf s
+      let s' := stepReadyH c e rf s
+      let rejd : Bool := match w with
+        | some f => (match s.futs f with | .done v => !x.mustCancel && e.rej v | _ => false)
+        | none => (match s.futs (t, 0) with | .done v => x.pc == .start && !x.mustCancel && e.rej v | _ => false)
       let unl := if (s.refs x.param).isSome && (s'.refs x.param).isNone then ["step:result-unlinks-own-reference"] else []
       let stuck := if (s'.tasks t).any (fun y => y.pc.terminal) && s'.syncing.contains x.param then ["step:name-left-in-syncing"] else []
       let hooked := match h with
@@ -77,7 +82,7 @@ def stepLabels (c : Cfg) (h : Hook) (rf : Nat → Nat) (s : St) : List String :=
              else if (s'.refs b).isSome then "hook:in-step:unlink-skipped" else "hook:in-step:not-linked"]
           else []
         | none => []
-      unl ++ stuck ++ hooked ++
+      unl ++ stuck ++ hooked ++ (if rejd then ["step:result-rejected"] else []) ++
       match w with
       | none =>
         if x.pc != .start then ["start:spurious"]
@@ -107,22 +112,23 @@ def stepLabels (c : Cfg) (h : Hook) (rf : Nat → Nat) (s : St) : List String :=
                            then "wake:cancelled-future:newer-task-registered" else "wake:cancelled-future"]
           | .pending _ => ["wake:spurious"]
 
-def tickLabels (c : Cfg) (h : Hook) (rf : Nat → Nat) : Nat → St → List String
+def tickLabels (c : Cfg) (h : Env) (rf : Nat → Nat) : Nat → St → List String
   | 0, _ => []
   | n + 1, s => if s.ready.isEmpty then [] else stepLabels c h rf s ++ tickLabels c h rf n (stepReadyH c h rf s)
 
-def eventLabels (c : Cfg) (h : Hook) (sh : StH) : EventH → List String
+def eventLabels (c : Cfg) (e : Env) (sh : StH) : EventH → List String
   | .assign p (.plain _) _ =>
     let s := sh.core
     [if (s.refs p).isSome && !s.syncing.contains p then
        (if (s.asyncRefs p).isSome then "assign:plain:unlink-and-cancel" else "assign:plain:unlink")
      else if (s.refs p).isSome then "assign:plain:unlink-skipped-syncing" else "assign:plain:not-linked"] ++
-    (match h with | some (a, _, _) => if p = a then ["hook:on-driver-assignment"] else [] | none => [])
+    (match e.hook with | some (a, _, _) => if p = a then ["hook:on-driver-assignment"] else [] | none => [])
   | .assign p src dep =>
     [(match src with | .coro => "assign:coro" | _ => "assign:agen") ++ (if dep then ":dependent" else "") ++
       (if (sh.core.asyncRefs p).isSome then ":cancels-registered" else "")]
-  | .tick => tickLabels c h sh.rf (tickFuel sh.core) sh.core
-  | .complete t k _ =>
+  | .tick => tickLabels c e sh.rf (tickFuel sh.core) sh.core
+  | .complete t k v =>
+    (if e.rej v then ["complete:rejected-value"] else []) ++
     [match sh.core.futs (t, k) with
      | .pending (some _) => "complete:wakes-task"
      | .pending none => "complete:not-awaited-yet"
@@ -157,17 +163,18 @@ def handleParam (case impl : Json) : Except String Json := do
       if a.size != 3 then throw "hook: [a, b, w] expected"
       pure (some (← a[0]!.getNat?, ← a[1]!.getNat?, ← a[2]!.getInt?))
     | none => pure none
+  let env : Env := { hook := hook, rej := fun v => decide (v < 0) }
   let evs ← parseEvents (← getArr case "events")
   -- model run
   let s0 := StH.init 0
   let (_, revObs, revHaz, revBr, ok) := evs.foldl
     (fun (acc : StH × List ObsH × List String × List String × Bool) ev =>
       let (sh, l, hz, br, ok) := acc
-      let sh' := applyEventH c hook sh ev
+      let sh' := applyEventH c env sh ev
       let hzs := match coreEvent ev with | some e => hazardNames c sh.core e | none => []
       (sh', observeH np sh' sh.core.log.length sh.core.nTasks :: l,
         hzs.reverse ++ hz,
-        (hzs.map ("hazard:" ++ ·)).reverse ++ (eventLabels c hook sh ev).reverse ++ br,
+        (hzs.map ("hazard:" ++ ·)).reverse ++ (eventLabels c env sh ev).reverse ++ br,
         ok && (ev != .tick || sh'.core.ready.isEmpty)))
     (s0, [], [], [], true)
   if !ok then throw "model: a tick did not drain the ready queue (fuel)"
@@ -178,7 +185,7 @@ def handleParam (case impl : Json) : Except String Json := do
   if implSteps.length != evs.length then throw "impl: number of observations differs from the number of events"
   let specOn (init : ObsH) (steps : List ObsH) : Nat × Option String :=
     if init != modelInit then (0, some "initial observation is not the idle object")
-    else specHistoryH np hook OSt.init (evs.zip steps) 0
+    else specHistoryH np env OSt.init (evs.zip steps) 0
   let (nImpl, sImpl) := specOn implInit implSteps
   let (_, sModel) := specOn modelInit modelSteps
   let hazards := revHaz.reverse
